@@ -53,7 +53,7 @@ fn idx(i: usize) -> Value {
 
 const PROFILES: &[&str] = &[
     "const_lo", "const_hi", "const_rand", "sorted", "dense", "small", "full", "minmax", "outliers", "allbits", "gap", "alt",
-    "arith", "runs", "hi_small", "lo_small", "tail_outlier",
+    "arith", "runs", "hi_small", "lo_small", "tail_outlier", "desc",
 ];
 
 fn rand_in(r: &mut Rng, lo: i128, hi: i128) -> i128 {
@@ -71,7 +71,8 @@ fn gen(profile: &str, n: usize, lo: i128, hi: i128, r: &mut Rng) -> Vec<i128> {
     if let Some(k) = profile.strip_prefix("dw").and_then(|x| x.parse::<u32>().ok()) {
         // sorted, adjacent differences spanning exactly k bits: the largest one (2^k - 1, top bit of the
         // delta field set) right at the start, in the middle and as the very last step
-        let big = (1i128 << k) - 1;
+        // (33 bits: the only legal 33-bit delta is 2^32 itself, the threshold of the delta strategy)
+        let big = if k == 33 { 1i128 << 32 } else { (1i128 << k) - 1 };
         let nbig = 3.min(n.saturating_sub(1)) as i128;
         let small_max = (((hi - lo) - nbig * big) / (n as i128 + 1)).min(big).max(0);
         let mut x = lo;
@@ -117,7 +118,8 @@ fn gen(profile: &str, n: usize, lo: i128, hi: i128, r: &mut Rng) -> Vec<i128> {
             v.push(clamp(base + off));
         }
         if n >= 2 {
-            let (a, b) = (r.below(n as u64) as usize, n - 1);
+            // the minimum: anywhere, or (even widths) next to the end, in the remainder of a chunked scan
+            let (a, b) = (if k % 2 == 0 && n >= 3 { n - 2 } else { r.below(n as u64) as usize }, n - 1);
             v[a] = base;
             v[b] = clamp(base + top); // the last element carries the all-ones offset
             if a == b {
@@ -140,6 +142,16 @@ fn gen(profile: &str, n: usize, lo: i128, hi: i128, r: &mut Rng) -> Vec<i128> {
             for _ in 0..n {
                 v.push(x);
                 x = clamp(x + rand_in(r, 0, step));
+            }
+        }
+        "desc" => {
+            // descending: the minimum is the LAST element (the remainder of chunked min/max scans), never sorted
+            let start = rand_in(r, lo + span / 2, hi);
+            let step = ((start - lo) / (n as i128 + 1)).min(100).max(0);
+            let mut x = start;
+            for _ in 0..n {
+                v.push(x);
+                x = clamp(x - 1 - rand_in(r, 0, step));
             }
         }
         "dense" => {
@@ -1636,7 +1648,7 @@ fn cases(a: &Args, name: &str) -> Vec<(&'static str, i128, i128, String, usize)>
         let secondary = di > 0;
         for (pi, &p) in PROFILES.iter().enumerate() {
             // sorted input makes several profiles alike: the quick tier keeps the distinct ones
-            if quick && fam == "sorted" && matches!(p, "alt" | "allbits" | "lo_small") {
+            if quick && fam == "sorted" && matches!(p, "alt" | "allbits" | "lo_small" | "desc") {
                 continue;
             }
             // SortedUintVec: the lengths around the boundaries of ITS block size (quick: only those)
@@ -1702,6 +1714,8 @@ fn cases(a: &Args, name: &str) -> Vec<(&'static str, i128, i128, String, usize)>
                                 && ((k0 >> 8) as usize + pi / 2 + n) % 2 == 0
                         }
                         "sorted" => !twin && !secondary && name.ends_with("b6") && pi % 4 == (n % 4),
+                        // UintVector::build_from: three strategies, cheap: every profile at both long lengths
+                        "uintvec" => !secondary && (name.ends_with("build_from") || pi % 4 == n % 4),
                         _ => !twin && !secondary && pi % 4 == n % 4,
                     }
                 };
@@ -1722,6 +1736,29 @@ fn cases(a: &Args, name: &str) -> Vec<(&'static str, i128, i128, String, usize)>
             }
         }
     }
+    // ---- lengths on both sides of the thresholds in the code: 4 and 8 elements (raw storage below), 1000/1001
+    // (block-based strategy), from_slice_bulk_simd: 64/65 and 2048/2049 (path switch), 1024/1025 (uniform-delta
+    // check), one-byte elements: 17407/17408 (16 KiB: small / large dataset analysis)
+    if fam == "intvec" || fam == "uintvec" || fam == "uvm0" || fam == "zipint" {
+        let (dom, lo, hi) = doms[0];
+        for p in ["full", "sorted", "arith", "outliers", "const_rand"] {
+            for n in [3usize, 4, 5, 7, 8, 9] {
+                v.push((dom, lo, hi, p.to_string(), n));
+            }
+            if fam == "intvec" && (!quick || p != "const_rand") {
+                v.push((dom, lo, hi, p.to_string(), 1001));
+                if name.ends_with("bulk_simd") {
+                    for n in [1024usize, 1025, 2048, 2049] {
+                        v.push((dom, lo, hi, p.to_string(), n));
+                    }
+                }
+                if type_bits(name) == 8 && name.ends_with(":from_slice") && (p == "full" || p == "outliers" || !quick) {
+                    v.push((dom, lo, hi, p.to_string(), 17407));
+                    v.push((dom, lo, hi, p.to_string(), 17408));
+                }
+            }
+        }
+    }
     // ---- width sweeps on the full domain of the subject: every bit width the container can choose, with
     // the top bit of that width set, lengths 67 / 99 / 131 (all index residues modulo 8, one SIMD chunk of 64
     // plus a partial one)
@@ -1737,25 +1774,31 @@ fn cases(a: &Args, name: &str) -> Vec<(&'static str, i128, i128, String, usize)>
             v.push((dom, lo, hi, format!("w{k}"), n));
             if fam == "intvec" || fam == "uintvec" {
                 // sorted inputs: the delta strategy (deltas up to 2^32), while the sum of the steps fits the type
-                if k <= 33 && k + 7 <= bits + 1 {
+                if k <= 34 && k + 7 <= bits + 1 {
                     v.push((dom, lo, hi, format!("dw{k}"), n));
                 }
                 // above 1000 elements and 16 bits: the block-based strategy (offset width = k; base width = k)
                 let mine = !quick || (k as usize + ci) % 3 == 0;
                 if k > 16 && mine && fam == "intvec" {
+                    // 1001..1023 elements: blocks of 64; from 1024: blocks of 128
                     if !quick || k % 2 == 0 || k > bits - 2 {
-                        v.push((dom, lo, hi, format!("w{k}"), 1029 + (k as usize % 2) * 71));
+                        v.push((dom, lo, hi, format!("w{k}"), if k % 4 < 2 { 1013 } else { 1100 }));
                     }
                     if !quick || k % 2 == 1 || k > bits - 2 {
-                        v.push((dom, lo, hi, format!("bs{k}"), 1100 + (k as usize % 3) * 37));
+                        v.push((dom, lo, hi, format!("bs{k}"), if k % 4 < 2 { 1137 } else { 1021 }));
                     }
                 }
                 if !quick && fam == "intvec" && ci == 0 && k % 4 == 0 {
                     v.push((dom, lo, hi, format!("w{k}"), 10003 + k as usize));
                     v.push((dom, lo, hi, format!("bs{k}"), 10067 + k as usize));
                 }
-                if fam == "uintvec" && (k % 4 == 0 || !quick) {
+                // UintVector packs only when that saves 20 %: the wide widths (up to 25) need long inputs
+                if fam == "uintvec" && (k >= 16 || k % 4 == 0 || !quick) {
                     v.push((dom, lo, hi, format!("w{k}"), 1029));
+                }
+                // exactly 16 bits above 1000 elements stays min-max; 17 bits switches to block-based
+                if fam == "intvec" && k == 16 && ci == 0 {
+                    v.push((dom, lo, hi, format!("w{k}"), 1013));
                 }
             }
         }
@@ -1967,7 +2010,7 @@ fn run_subject(tr: &mut Tracer, a: &Args, name: &str) -> Value {
 
 /// subject filter; the runs of the width sweep carry their configuration as subject name
 fn wanted(a: &Args, s: &str) -> bool {
-    a.wants(s) || (s == "sorted:sweep" && a.subject.as_deref().map_or(false, |f| f.split(',').any(|p| p.starts_with("sorted:sw"))))
+    a.wants(s) || (s == "sorted:sweep" && a.subject.as_deref().map_or(false, |f| f.split(',').any(|p| p.starts_with("sorted:sw") || p.starts_with("sorted:invalid"))))
 }
 
 fn group(a: &Args) {
